@@ -410,6 +410,33 @@ def interleave(idx, weight, nshards):
     return shards
 
 
+def interleaved_calls(chk, cases, observations):
+    """The helpers are plain functions of their arguments: hp / cycle1600 / loghp cases evaluated again from several threads
+    at once (different lengths and lambdas in flight together - a coordinate filter is called from whatever thread evaluates
+    a loss) must return, bit for bit, what the one-at-a-time evaluation returned."""
+    from concurrent.futures import ThreadPoolExecutor
+
+    idx = [i for i, c in enumerate(cases) if c["kind"] in ("hp", "cycle1600", "loghp") and not observations[i]["error"]
+           and c["n"] <= 400]
+    idx = idx[: 48 if chk.tier == "quick" else 400]
+    if len(idx) < 4:
+        return 0, []
+
+    def again(i):
+        o = run_impl(cases[i])
+        keys = ("cycle", "trend") if cases[i]["kind"] == "hp" else ("out",)
+        return i, [k for k in keys if o.get(k) != observations[i].get(k)] + (["error"] if o["error"] else [])
+
+    bad = []
+    with ThreadPoolExecutor(max_workers=6) as ex:
+        for rep in range(3):
+            order = idx[rep:] + idx[:rep]
+            for i, d in ex.map(again, order):
+                if d:
+                    bad.append((i, d))
+    return 3 * len(idx), bad
+
+
 def run(chk, replay=None):
     chk.proof_gate()
     if replay:
@@ -476,6 +503,15 @@ def run(chk, replay=None):
             chk.violation({"kind": "correspondence", "name": "check_ln_case", "filter": c["kind"]},
                           {"failed": "correspondence:check_ln_case (np.log value not within 2^-44 of the verified "
                                      "enclosure of ln)", "case": c, "observed": o}, no_input=True)
+    n_threaded, tbad = (0, []) if replay else interleaved_calls(chk, cases, observations)
+    diag["evaluations_repeated_from_6_threads"] = n_threaded
+    if tbad:
+        i, d = tbad[0]
+        chk.violation({"kind": "oracle", "filter": cases[i]["kind"], "clause": "concurrent-call-differs"},
+                      {"failed": f"oracle:concurrent-call-differs: {cases[i]['kind']} (n={cases[i]['n']}, lam={cases[i].get('lam')}) evaluated "
+                                 f"while other lengths / lambdas were being evaluated in other threads returned a different {d} than "
+                                 f"when evaluated alone ({len(tbad)} of {n_threaded} repeated evaluations differ)",
+                       "case": cases[i], "observed": observations[i]})
     for e in err_hp + err_ln:
         chk.violation({"kind": "correspondence", "name": "coqc"}, {"failed": "correspondence:coqc", "detail": e}, no_input=True)
 
